@@ -251,6 +251,8 @@ def byte_streams(chk):
     out.append(("corpus", CORPUS_MD + CORPUS_DI, "both"))
     md_alpha = [0x61, 0x20, 0x3a, 0x5c, 0x0a, 0x24, 0x23] if q else [0x61, 0x20, 0x3a, 0x5c, 0x0a, 0x24, 0x23, 0x0d]
     out.append(("exhaustive-makedeps", strings_over(md_alpha, 5 if q else 6), "md"))
+    # the double quote (not special in the format) as a further byte, shorter strings
+    out.append(("exhaustive-makedeps-quote", [w for w in strings_over([0x61, 0x20, 0x3a, 0x5c, 0x0a, 0x24, 0x23, 0x22], 4 if q else 5) if 0x22 in w], "md"))
     di_alpha = [0x00, 0x10, 0x61, 0x07] if q else [0x00, 0x10, 0x11, 0x40, 0x61, 0x07]
     out.append(("exhaustive-depinfo", strings_over(di_alpha, 6 if q else 7), "di"))
     mdf, dif = valid_md_files(rng), valid_di_files(rng)
@@ -352,6 +354,13 @@ def writer_part(chk):
         for p in COLON_ESCAPE_PATHS:
             cases.append(([(b"out", [p], sp)], py_md_write(b"out", [p], sp), [0]))
         cases.append(([(b"o ut", COLON_ESCAPE_PATHS, sp)], py_md_write(b"o ut", COLON_ESCAPE_PATHS, sp), [0]))
+        for p in QUOTE_PATHS:
+            cases.append(([(b"out", [p], sp)], py_md_write(b"out", [p], sp), [0]))
+            for e in (1, 2):      # the closing quote followed by CRLF / by the end of the file
+                cases.append(([(b"out", [b"h", p], sp)], py_md_write(b"out", [b"h", p], sp, e), [e]))
+            if b":" not in p:     # as the rule name
+                cases.append(([(p, [b"h"], sp)], py_md_write(p, [b"h"], sp), [0]))
+        cases.append(([(b"out", QUOTE_PATHS, sp)], py_md_write(b"out", QUOTE_PATHS, sp), [0]))
     for i in range(n):
         nr = 1 if rng.random() < 0.6 else rng.randint(2, 3)
         rules = []
@@ -378,6 +387,7 @@ def writer_part(chk):
             break
     cases = [(r, d) for (r, d, e) in cases]
     chk.cov["directed_colon_escape_paths"] = [repr(p) for p in COLON_ESCAPE_PATHS]
+    chk.cov["directed_quote_paths"] = [repr(p) for p in QUOTE_PATHS]
     reqs, ds = requests_for([d for (r, d) in cases], "md")
     ans = differential(chk, "writer-outputs", reqs, ds)
     for k, (rules, d) in enumerate(cases):
@@ -390,10 +400,11 @@ def writer_part(chk):
         rp = dict(rules=[dict(target=repr(t), paths=[repr(p) for p in ps], sep=repr(SEPS[sp])) for (t, ps, sp) in rules], file_repr=repr(d), file_hex=hx(d),
                   request=reqs[2 * k], implementation=a0, implementation_ignoring_subsequent=a1, oracle="deps == written paths, computed by the harness without the model")
         if errs(e0) or errs(e1):
-            chk.violation("roundtrip-error", "a dependency file written with the documented escaping is reported as malformed: %s" % (errs(e0) or errs(e1))[0][1:],
+            chk.violation("roundtrip-error", "a dependency file written with the documented escaping is reported as malformed: error %s at offset %s" % tuple((errs(e0) or errs(e1))[0][1:3]),
                           rp, found_input=True, broken="c11 oracle (round trip) on implementation")
         elif md_deps(e0) != want_all:
-            kind = "colon" if any(b":" in p for p in want_all) and [p for p in md_deps(e0) if b":" not in p] == [p for p in want_all if b":" not in p] else "paths"
+            kind = "quote" if [p for p in md_deps(e0) if p[:1] not in (b'"', b"'")] == [p for p in want_all if p[:1] not in (b'"', b"'")] and any(p[:1] in (b'"', b"'") for p in want_all) else \
+                   "colon" if any(b":" in p for p in want_all) and [p for p in md_deps(e0) if b":" not in p] == [p for p in want_all if b":" not in p] else "paths"
             chk.violation("roundtrip-" + kind, "paths written with the documented escaping are not recovered byte for byte: wrote %r, read %r" % (want_all[:6], md_deps(e0)[:6]),
                           rp, found_input=True, broken="c11 oracle (round trip) on implementation")
         elif md_deps(e1) != want_first:
@@ -401,7 +412,7 @@ def writer_part(chk):
                           rp, found_input=True, broken="c11 oracle (multi rule) on implementation")
         elif [unhx(e[2]) for e in e0 if e[0] == "S"] != [t for (t, ps, sp) in rules]:
             chk.violation("roundtrip-targets", "rule names are not recovered", rp, found_input=True, broken="c11 oracle (round trip) on implementation")
-    k = next(i for i, (r, d) in enumerate(cases) if i > 40 and len(r) > 1 and any(b":" in p for p in r[0][1]))
+    k = next(i for i, (r, d) in enumerate(cases) if i > 200 and len(r) > 1 and any(b":" in p for p in r[0][1]))
     chk.sample(dict(kind="writer-output", rules=[dict(target=repr(t), paths=[repr(p) for p in ps], sep=repr(SEPS[sp])) for (t, ps, sp) in cases[k][0]],
                     file_repr=repr(cases[k][1]), implementation=ans[2 * k]))
     # malformed families whose verdict the property text fixes: an error must be reported
@@ -492,7 +503,7 @@ def glue_part(chk):
     s = sides(chk)
     rc, out, err = vlib.run_lines(s.drv, ["cwd"])
     cwd = unhx(out[0])
-    words = [w for w in strings_over([0x2f, 0x2e, 0x61], 4) if w] + [b"a b/c:d", b"./a", b"../a", b"a/", b"//a/b", b"///a", b"a//b"]
+    words = [w for w in strings_over([0x2f, 0x2e, 0x61], 4) if w] + [b"a b/c:d", b"./a", b"../a", b"a/", b"//a/b", b"///a", b"a//b", b"../x", b"./x", b"a/../x", b"sub/./x", b"a/../../x", b"./../x/."]
     wds = [b"", b"/", b"/w", b"/w/", b"/w/x y", b"//", b"//n", b"//n/x", b"/w//", b"w", b"w/"]
     reqs, meta = [], []
     for w in words:
@@ -561,10 +572,38 @@ NAMES = [b"h d", b"h#d", b"h$d", b"h\\d", b"h:d", b"h'\"d", b"\x80\xff", b"h:", 
 # paths whose FIRST escape sequence comes after an interior colon (the continuation call of lexWord handles it)
 COLON_ESCAPE_PATHS = [b"a:b c", b"x:y#z", b"p:q\\r", b"m:n$o", b"inc:dir/my hdr.h", b"a:b:c d", b"k:\\", b"k:$"]
 NAMES += COLON_ESCAPE_PATHS[:4] + [b"inc:my hdr.h"]
+# quotes are NOT special in the format (nor in the documented escaping): names that begin and end with one, or only begin
+QUOTE_PATHS = [b'"config"', b'"a b"', b"'q r'", b'"', b'""', b'"a', b"'x'", b'"a":b', b'"x"/y.h']
+NAMES += QUOTE_PATHS[:4] + [b"'x'"]
+# relative spellings with dot components, for the working directory reached through a symbolic link (mode symlink-wd)
+DOT_NAMES = [b"../x", b"./x", b"a/../x", b"sub/./x", b"../x y", b"a/../sub/../x"]
 STYLES = ["makefile", "dependency-info"]
 ALL_STYLES = STYLES + ["makefile-ignoring-subsequent-outputs"]
 MODES = ["relative", "absolute", "relative-wd", "absolute-wd"]
 EVENTS = ["modify", "delete", "create", "none"]
+
+def phys(path):
+    """the file a path names, resolved through the file system (symbolic links in the directory part followed)"""
+    return os.path.join(os.path.realpath(os.path.dirname(path)), os.path.basename(path))
+
+def layout(S, mode, name):
+    """Creates the directories of one history.  Returns (value of the working-directory attribute or None, the directory
+    the command runs in, the file that `name` - as the command spells it - really is, the spelling for the deps file)."""
+    Sb = S.encode()
+    if mode == "symlink-wd":
+        # the working directory is reached through a symbolic link to a deeper directory; inside it `a` is a link
+        # to a directory with another parent, `sub` a real directory:  ../x, a/../x are NOT what folding ".." lexically gives
+        os.makedirs(os.path.join(S, "real", "deep", "wd", "sub"))
+        os.makedirs(os.path.join(S, "real", "other", "adir"))
+        os.symlink(os.path.join("real", "deep", "wd"), os.path.join(S, "wd"))
+        os.symlink(os.path.join("..", "..", "other", "adir"), os.path.join(S, "real", "deep", "wd", "a"))
+        wd, cmdwd = "wd", os.path.join(S, "wd")
+        return wd, cmdwd, phys(os.path.join(os.path.realpath(cmdwd).encode(), name)), name
+    wd = "sub dir" if mode.endswith("-wd") else None
+    cmdwd = os.path.join(S, wd) if wd else S
+    os.makedirs(os.path.join(cmdwd, "d"))
+    P = os.path.join(cmdwd.encode(), name)
+    return wd, cmdwd, P, (P if mode.startswith("absolute") else name)
 
 def deps_file(style, spelled, variant):
     """the dependency file the command's script produces, naming `spelled`"""
@@ -580,11 +619,7 @@ def deps_file(style, spelled, variant):
 def cli_scenario(chk, llb, S, style, name, mode, event, variant, malformed=None):
     """Runs one history in sandbox S; returns (verdict key or None, what, replay dict)."""
     shutil.rmtree(S, ignore_errors=True)
-    wd = "sub dir" if mode.endswith("-wd") else None
-    cmdwd = os.path.join(S, wd) if wd else S
-    os.makedirs(os.path.join(cmdwd, "d"))
-    P = os.path.join(cmdwd.encode(), name)
-    spelled = P if mode.startswith("absolute") else name
+    wd, cmdwd, P, spelled = layout(S, mode, name)
     data = malformed if malformed is not None else deps_file(style, spelled, variant)
     open(os.path.join(cmdwd, "deps.src"), "wb").write(data)
     if event != "create":
@@ -607,7 +642,7 @@ def cli_scenario(chk, llb, S, style, name, mode, event, variant, malformed=None)
     mwd = os.path.join(S, wd).encode() if wd else b""
     rcm, mo, me = vlib.run_lines(sides(chk).model, ["process %d %s %s %s" % ({"makefile": 1, "dependency-info": 2, "makefile-ignoring-subsequent-outputs": 3}[style], hx(S.encode()), hx(mwd), hx(data))])
     mok, mkeys = mo[0].split(" ")[0] == "1", [unhx(x) for x in mo[0].split(" ")[1].split(",")] if mo[0].split(" ")[1] != "." else []
-    norm = lambda k: os.path.normpath(os.path.join(S.encode(), k))
+    norm = lambda k: os.path.normpath(phys(os.path.join(S.encode(), k)))     # resolved through the file system, not lexically
     rp["model"] = dict(succeeds=mok, keys=[repr(k) for k in mkeys], tracks_the_path=norm(P) in [norm(k) for k in mkeys])
     if style == "dependency-info":
         rc0, m0, e0 = vlib.run_lines(sides(chk).model, ["process_depinfo_v0 " + hx(data)])
@@ -684,6 +719,11 @@ def cli_part(chk):
         scen.append(("makefile", NAMES[13], "relative", "none", 1))
         for j, nm in enumerate(COLON_ESCAPE_PATHS[:4]):
             scen.append(("makefile", nm, MODES[j % 4], EVENTS[j % 3], j))
+        for j, nm in enumerate(QUOTE_PATHS[:4]):
+            scen.append(("makefile", nm, MODES[(j + 1) % 4], EVENTS[j % 3], j + 1))
+        for j, nm in enumerate(DOT_NAMES[:4]):
+            scen.append((STYLES[j % 2], nm, "symlink-wd", EVENTS[j % 3], j))
+            scen.append((STYLES[(j + 1) % 2], nm, "symlink-wd", EVENTS[(j + 1) % 3], j + 1))
         scen.append(("makefile-ignoring-subsequent-outputs", NAMES[13], "relative-wd", "modify", 4))
         scen.append(("makefile-ignoring-subsequent-outputs", NAMES[4], "absolute", "create", 3))
         scen.append(("dependency-info", NAMES[13], "absolute-wd", "none", 0))
@@ -695,6 +735,10 @@ def cli_part(chk):
                     for event in EVENTS:
                         scen.append((style, name, mode, event, i))
                         i += 1
+            for name in DOT_NAMES:
+                for event in EVENTS:
+                    scen.append((style, name, "symlink-wd", event, i))
+                    i += 1
     builds = ok = 0
     mism = []
     for k, (style, name, mode, event, variant) in enumerate(scen):
@@ -718,6 +762,8 @@ def cli_part(chk):
                 key = "depinfo-relative-path-not-resolved"
                 what = ("dependency-info style: a RELATIVE input path reported by a command that runs in a working-directory is keyed relative to the "
                         "current directory of llbuild, not to the command's working directory, so a change to the file the command read does not re-execute it. " + what)
+            if key == "change-not-honoured" and mode == "symlink-wd":
+                key = "change-not-honoured-through-symlink"
             chk.violation(key, what, rp, found_input=True, broken="c11 oracle (discovered path change re-executes the command) on llbuild buildsystem build")
         else:
             ok += len(rp["builds"])
@@ -756,11 +802,7 @@ def inprocess_history(chk, S, style, name, mode, variant, use_db, start_missing)
     """One loaded description, one BuildSystemFrontend (harness/cpp/deps_driver.cpp), a sequence of builds with changes
     of the discovered path in between.  Returns (key or None, what, replay dict)."""
     shutil.rmtree(S, ignore_errors=True)
-    wd = "sub dir" if mode.endswith("-wd") else None
-    cmdwd = os.path.join(S, wd) if wd else S
-    os.makedirs(os.path.join(cmdwd, "d"))
-    P = os.path.join(cmdwd.encode(), name)
-    spelled = P if mode.startswith("absolute") else name
+    wd, cmdwd, P, spelled = layout(S, mode, name)
     data = deps_file(style, spelled, variant)
     open(os.path.join(cmdwd, "deps.src"), "wb").write(data)
     stamp = [10**18]
@@ -825,6 +867,7 @@ def inprocess_part(chk):
     shutil.rmtree(base, ignore_errors=True)
     os.makedirs(base)
     names = [b"hdr.h", b"h d", b"a:b c", b"h$d#e\\f", b"x:y#z", b"\x80\xff", b"./h", b"m:n$o"]
+    names += [b'"config"', b"'q r'"]
     hist = []
     if chk.quick():
         i = 0
@@ -832,7 +875,15 @@ def inprocess_part(chk):
             for mode in MODES:
                 hist.append((style, names[i % len(names)], mode, i % 3, i % 4 != 3, i % 5 == 4))
                 i += 1
+        hist.append(("makefile", b'"config"', "relative", 0, True, False))
+        hist.append(("makefile", b"../x", "symlink-wd", 1, True, False))
+        hist.append(("dependency-info", b"a/../x", "symlink-wd", 0, True, True))
+        hist.append(("dependency-info", b"../x", "symlink-wd", 1, False, False))
     else:
+        for j, style in enumerate(ALL_STYLES):
+            for dn in DOT_NAMES:
+                for use_db in (True, False):
+                    hist.append((style, dn, "symlink-wd", j % 3, use_db, (j + len(dn)) % 3 == 0))
         i = 0
         for style in ALL_STYLES:
             for name in names:
